@@ -243,10 +243,7 @@ func nsIf(with bool, ns map[string]string) map[string]string {
 	if !with {
 		return nil
 	}
-	if ns == nil {
-		return map[string]string{}
-	}
-	return ns
+	return ns // CompileWithNS(expr, nil) is documented to behave like Compile
 }
 
 func ternary(c bool, a, b string) string {
